@@ -236,6 +236,32 @@ func twice(k int) {
 ''', 'k := NondetRange(0, 0, 2)\ndefer rec("r")\ntwice(k)\nprintln("after")',
                lambda inp: [('(= in_0 0)', [('body', []), ('d-ok', []), ('after', [])], 'normal'), ('(= in_0 1)', [('d-ok', []), ('r', ['1'])], 'normal'),
                             ('(= in_0 2)', [('r', ['2'])], 'normal')]))
+    C.append(T('recover_after_nested_recovered', D + '''
+//go:noinline
+func swallow(v int) {
+	defer func() { recover() }()
+	panic(v + 1000)
+}
+
+//go:noinline
+func outer(k, v int) (r int) {
+	defer func() {
+		if k >= 1 {
+			swallow(v)
+		}
+		if x := recover(); x != nil {
+			r = x.(int)
+		}
+		if k >= 2 {
+			swallow(v)
+			if y := recover(); y != nil {
+				r = -1
+			}
+		}
+	}()
+	panic(v)
+}
+''', 'k := NondetRange(0, 0, 2)\nv := int(NondetInt16(1))\nprintln("r", outer(k, v))', lambda inp: [('true', [('r', ['in_1'])], 'normal')]))
     return C
 
 
